@@ -8,6 +8,7 @@ import (
 	"go/token"
 	"os"
 	"path/filepath"
+	"runtime"
 	"runtime/debug"
 	"sort"
 	"strconv"
@@ -50,6 +51,26 @@ func (c *Ctx) Group(rule, construct string, f func()) {
 			}
 			if u, ok := r.(undecidedShape); ok {
 				c.L.Undecided(rule, construct, "code shape outside the rule's idiom list: "+u.why, u.pos)
+				return
+			}
+			if re, ok := r.(runtime.Error); ok {
+				// a rule walked off the idioms it was written for (nil anchor value, unexpected
+				// instruction kind): it cannot vouch for this construct. Reported as undecided -
+				// an alarm, never a pass - with the place in the rule that gave up.
+				where := ""
+				for _, ln := range strings.Split(string(debug.Stack()), "\n") {
+					if strings.Contains(ln, "/checker/rules_") {
+						where = strings.TrimSpace(ln)
+						if i := strings.LastIndex(where, "/"); i >= 0 {
+							where = where[i+1:]
+						}
+						if i := strings.Index(where, " "); i >= 0 {
+							where = where[:i]
+						}
+						break
+					}
+				}
+				c.L.Undecided(rule, construct, "the rule's analysis gave up on a code shape it was not written for ("+re.Error()+" at "+where+"): the check cannot vouch for this construct", 0)
 				return
 			}
 			panic(r)
